@@ -605,6 +605,19 @@ func NewConv(ex *exec.Exec) *Conv {
 	return &Conv{ex: ex, types: map[types.Type]*MType{}, objs: map[types.Object]*MObj{}, pkgs: map[*types.Package]*MPkg{}}
 }
 
+// RealOf returns the go/types type a model type was converted from (nil if it was built otherwise).
+func (cv *Conv) RealOf(m *MType) types.Type {
+	if m == nil {
+		return nil
+	}
+	for t, x := range cv.types {
+		if x == m {
+			return t
+		}
+	}
+	return nil
+}
+
 func (cv *Conv) Pkg(p *types.Package) *MPkg {
 	if p == nil {
 		return nil
